@@ -1,6 +1,588 @@
-//! C10 — harness module not built yet.
+//! C10 — royalty shares stay bounded and can only creep up slowly.
+//! (a) CollectionInfoResponse::royalty_payout called directly on swept inputs;
+//! (b) royalty-update histories on the real collections (all variants) through the
+//!     collection world, with clocks around the 24 h boundary and shares at the
+//!     2 % / 10 % / 100 % bounds +- 1 atomic unit.
+//! Monitors evaluate the property text on what the implementation answered.
+use crate::chain;
+use crate::util::*;
+use crate::w_collection::*;
 use crate::Args;
-pub fn run(_a: &Args) {
-    eprintln!("C10: harness module not built yet");
-    std::process::exit(2);
+use cosmwasm_std::{Addr, BankMsg, CosmosMsg, Decimal, Response, Uint128, Uint256};
+use serde::{Deserialize, Serialize};
+use std::collections::BTreeSet;
+use std::hash::{Hash, Hasher};
+
+// ------------------------------------------------------------------ payout sweep
+#[derive(Clone, Debug, Serialize, Deserialize, PartialEq, Eq, PartialOrd, Ord)]
+pub struct Payout {
+    /// None: the collection has no royalties
+    pub share: Option<u128>,
+    pub payment: u128,
+    pub fee: u128,
+    pub finders: Option<u128>,
+}
+const ROYALTY_ADDR: &str = "royalty";
+
+struct PayoutOut {
+    out: Result<(u128, Vec<BMsg>), String>,
+    coq: String,
+}
+
+fn run_payout(c: &Payout) -> PayoutOut {
+    let mut addrs = addr_ids();
+    let mut denoms = denom_ids();
+    let rid = addrs.id(ROYALTY_ADDR);
+    let resp = sg721_base::msg::CollectionInfoResponse {
+        creator: "creator".into(),
+        description: "d".into(),
+        image: "https://example.com/image.png".into(),
+        external_link: None,
+        explicit_content: None,
+        start_trading_time: None,
+        royalty_info: c.share.map(|s| sg721::RoyaltyInfoResponse {
+            payment_address: ROYALTY_ADDR.into(),
+            share: Decimal::new(Uint128::new(s)),
+        }),
+    };
+    let r = catch(|| {
+        let mut res = Response::new();
+        resp.royalty_payout(
+            Addr::unchecked("collection"),
+            Uint128::new(c.payment),
+            Uint128::new(c.fee),
+            c.finders.map(Uint128::new),
+            &mut res,
+        )
+        .map(|amt| (amt.u128(), res))
+    });
+    let out = match r {
+        Ok(Ok((amt, res))) => Ok((amt, classify_msgs(&res.messages, &mut addrs, &mut denoms))),
+        Ok(Err(e)) => Err(e.to_string()),
+        Err(p) => Err(p),
+    };
+    let roy = match c.share {
+        Some(s) => format!("(Some (mkRoy {} {}))", rid, s),
+        None => "None".into(),
+    };
+    let fnd = match c.finders {
+        Some(f) => format!("(Some {})", f),
+        None => "None".into(),
+    };
+    let o = match &out {
+        Ok((amt, ms)) => format!("(Ok ({}, {}))", amt, coq_list(&ms.iter().map(|m| m.coq()).collect::<Vec<_>>())),
+        Err(_) => "Err".into(),
+    };
+    PayoutOut { out, coq: format!("RPayout {} {} {} {} {}", roy, c.payment, c.fee, fnd, o) }
+}
+
+/// property text: pays floor(payment x share) to the royalty address, nothing for a zero
+/// share or absent royalties, refuses when fees plus royalty exceed the payment
+fn payout_monitor(c: &Payout, out: &Result<(u128, Vec<BMsg>), String>) -> Option<(String, String)> {
+    let mut addrs = addr_ids();
+    let rid = addrs.id(ROYALTY_ADDR);
+    match c.share {
+        None | Some(0) => match out {
+            Ok((0, ms)) if ms.is_empty() => None,
+            other => Some(("payout-not-zero".into(), format!("no royalties / zero share must pay nothing, got {:?}", other))),
+        },
+        Some(s) => {
+            let royalty = Uint256::from(c.payment) * Uint256::from(s) / Uint256::from(ONE);
+            let due = Uint256::from(c.fee) + Uint256::from(c.finders.unwrap_or(0)) + royalty;
+            if due > Uint256::from(c.payment) {
+                return match out {
+                    Ok(x) => Some(("payout-not-refused".into(), format!("fees plus royalty {} exceed the payment {} but got {:?}", due, c.payment, x))),
+                    Err(_) => None,
+                };
+            }
+            // due <= payment <= u128::MAX, so the royalty fits
+            let r: u128 = Uint128::try_from(royalty).unwrap().u128();
+            let want = vec![BMsg::Send { to: rid, denom: 0, amt: r }];
+            match out {
+                Ok((amt, ms)) if *amt == r && *ms == want => None,
+                other => Some(("payout-wrong".into(), format!("expected {} ustars to the royalty address, got {:?}", r, other))),
+            }
+        }
+    }
+}
+
+fn payout_cases(a: &Args, rng: &mut Rng) -> Vec<Payout> {
+    let mut shares: Vec<Option<u128>> = vec![None];
+    for b in [0u128, 1, 2, PCT, 2 * PCT, 5 * PCT, 10 * PCT, 50 * PCT, 99 * PCT, ONE, ONE / 3, 2 * ONE, u128::MAX] {
+        for d in [b.saturating_sub(1), b, b.saturating_add(1)] {
+            shares.push(Some(d));
+        }
+    }
+    let mut pays: Vec<u128> = vec![];
+    for b in [0u128, 1, 2, 3, 10, 99, 100, 101, 1000, 1_000_000, 10_000_000_000, ONE, u128::MAX / 2, u128::MAX] {
+        for d in [b.saturating_sub(1), b, b.saturating_add(1)] {
+            pays.push(d);
+        }
+    }
+    for l in harvest_literals(&["contracts/collections/sg721-base/src/msg.rs"]) {
+        pays.push(l);
+        pays.push(l.saturating_add(1));
+    }
+    pays.sort();
+    pays.dedup();
+    let mut v = vec![];
+    // corpus: the values of the repo's own test (payment 1000, 10 % -> 100)
+    v.push(Payout { share: Some(10 * PCT), payment: 1000, fee: 0, finders: None });
+    v.push(Payout { share: Some(10 * PCT), payment: 1000, fee: 900, finders: None });
+    v.push(Payout { share: Some(10 * PCT), payment: 1000, fee: 901, finders: None });
+    v.push(Payout { share: Some(10 * PCT), payment: 1000, fee: 500, finders: Some(401) });
+    for s in &shares {
+        for &p in &pays {
+            // royalty this share implies (when it fits), to put the fee on the boundary
+            let roy = s.map(|x| Uint256::from(p) * Uint256::from(x) / Uint256::from(ONE)).unwrap_or_default();
+            let slack = Uint256::from(p).checked_sub(roy).ok().and_then(|x| Uint128::try_from(x).ok()).map(|x| x.u128());
+            let mut fees = vec![0u128, 1];
+            if let Some(sl) = slack {
+                fees.extend([sl.saturating_sub(1), sl, sl.saturating_add(1)]);
+            }
+            fees.push(p);
+            fees.sort();
+            fees.dedup();
+            for f in fees {
+                let k = rng.below(4);
+                let finders = match k {
+                    0 => None,
+                    1 => Some(0),
+                    2 => Some(1),
+                    _ => Some(rng.u128_any_size() % (p / 2 + 1)),
+                };
+                v.push(Payout { share: *s, payment: p, fee: f, finders });
+                if finders == Some(1) && f > 0 {
+                    // move one unit from the fee to the finder: same total
+                    v.push(Payout { share: *s, payment: p, fee: f - 1, finders });
+                }
+            }
+        }
+    }
+    let nrand = if a.thorough() { 40_000 } else { 1_500 };
+    for _ in 0..nrand {
+        let share = match rng.below(10) {
+            0 => None,
+            1 => Some(0),
+            2 => Some(rng.u128_any_size()),
+            _ => Some(rng.next_u128() % (ONE + 1)),
+        };
+        let payment = rng.u128_any_size();
+        let fee = match rng.below(3) {
+            0 => rng.u128_any_size() % (payment / 2 + 1),
+            1 => rng.u128_any_size() % (payment.saturating_add(1).max(1)),
+            _ => rng.u128_any_size(),
+        };
+        let finders = if rng.chance(1, 2) { Some(rng.u128_any_size() % (payment / 4 + 1)) } else { None };
+        v.push(Payout { share, payment, fee, finders });
+    }
+    if !a.thorough() && v.len() > 9000 {
+        // keep the corpus and a deterministic thinning of the grid
+        let head: Vec<Payout> = v[..4].to_vec();
+        let mut rest: Vec<Payout> = v[4..].to_vec();
+        let keep = 6000usize;
+        let stride = rest.len() as f64 / keep as f64;
+        let mut out = head;
+        let mut x = 0f64;
+        while (x as usize) < rest.len() && out.len() < keep + 4 {
+            out.push(rest[x as usize].clone());
+            x += stride;
+        }
+        rest.clear();
+        return out;
+    }
+    v
+}
+
+// ------------------------------------------------------------------ royalty histories
+fn upd_roy(share: u128) -> Op {
+    Op::UpdateInfo(UpdSpec { royalty: Some(Roy { addr: "royalty".into(), share }), ..Default::default() })
+}
+fn st(at: u64, sender: &str, op: Op) -> Step {
+    Step { at, sender: sender.into(), op, funds: vec![] }
+}
+fn setup_with(v: Variant, royalty: Option<u128>) -> Setup {
+    let mut s = default_setup(v);
+    s.info.royalty = royalty.map(|share| Roy { addr: "royalty".into(), share });
+    s
+}
+
+/// Curated + boundary histories (complete step lists).
+fn scripted(v: Variant) -> Vec<Hist> {
+    let t0 = chain::GENESIS_NS + 1_000_000_000;
+    let mut out = vec![];
+    // instantiate with shares around 100 %, zero and none
+    for sh in [Some(0u128), Some(1), Some(ONE - 1), Some(ONE), Some(ONE + 1), Some(2 * ONE), None] {
+        out.push(Hist { setup: setup_with(v, sh), steps: vec![st(t0 + DAY_NS, "creator", upd_roy(PCT))] });
+    }
+    // cadence measured from instantiation and from the previous accepted change
+    for d0 in [DAY_NS - 1, DAY_NS, DAY_NS + 1] {
+        for d1 in [DAY_NS - 1, DAY_NS, DAY_NS + 1] {
+            let a = t0 + d0;
+            out.push(Hist {
+                setup: setup_with(v, Some(5 * PCT)),
+                steps: vec![
+                    st(a, "creator", upd_roy(6 * PCT)),
+                    st(a + d1, "creator", upd_roy(4 * PCT)),
+                    st(a + d1 + d1, "creator", upd_roy(3 * PCT)),
+                    st(a + 3 * DAY_NS, "creator", upd_roy(2 * PCT)),
+                ],
+            });
+        }
+    }
+    // the same value re-submitted also counts as a change for the cadence
+    out.push(Hist {
+        setup: setup_with(v, Some(5 * PCT)),
+        steps: vec![
+            st(t0 + DAY_NS, "creator", upd_roy(5 * PCT)),
+            st(t0 + DAY_NS + 1, "creator", upd_roy(4 * PCT)),
+            st(t0 + 2 * DAY_NS, "creator", upd_roy(4 * PCT)),
+        ],
+    });
+    // raises: delta 2 % +- 1 atomic from several bases; cap 10 % +- 1 atomic
+    for base in [0u128, 1, 3 * PCT, 5 * PCT, 8 * PCT - 1, 8 * PCT, 8 * PCT + 1, 9 * PCT, 10 * PCT - 1, 10 * PCT, 10 * PCT + 1, 50 * PCT] {
+        for new in [
+            base + 2 * PCT - 1,
+            base + 2 * PCT,
+            base + 2 * PCT + 1,
+            10 * PCT - 1,
+            10 * PCT,
+            10 * PCT + 1,
+            base + 1,
+            base,
+            base.saturating_sub(1),
+            0,
+        ] {
+            out.push(Hist { setup: setup_with(v, Some(base)), steps: vec![st(t0 + DAY_NS, "creator", upd_roy(new))] });
+        }
+    }
+    // every integer literal of the contract source read as a percentage: a raise of exactly
+    // two points onto it, +- 1 atomic (a change that special-cases a value has to name it)
+    for l in harvest_literals(&["contracts/collections/sg721-base/src/contract.rs"]) {
+        if (1..=100).contains(&l) {
+            let base = l.saturating_sub(2) * PCT;
+            for new in [l * PCT - 1, l * PCT, l * PCT + 1] {
+                out.push(Hist { setup: setup_with(v, Some(base)), steps: vec![st(t0 + DAY_NS, "creator", upd_roy(new))] });
+            }
+        }
+    }
+    // first royalty on a collection created without one: only bounded by 100 %
+    for new in [0u128, 10 * PCT + 1, 50 * PCT, ONE - 1, ONE, ONE + 1] {
+        out.push(Hist {
+            setup: setup_with(v, None),
+            steps: vec![st(t0 + DAY_NS, "creator", upd_roy(new)), st(t0 + 2 * DAY_NS, "creator", upd_roy(new / 2 + 2 * PCT))],
+        });
+    }
+    // updates above 100 % on a collection with royalties, lowering from a high share
+    for new in [ONE, ONE + 1, 49 * PCT, 50 * PCT, 50 * PCT + 1, 52 * PCT] {
+        out.push(Hist { setup: setup_with(v, Some(50 * PCT)), steps: vec![st(t0 + DAY_NS, "creator", upd_roy(new))] });
+    }
+    // multi-step climb: 0 -> 2 -> 4 -> 6 -> 8 -> 10 -> (12 refused) -> 10 % + 1 refused
+    let mut steps = vec![];
+    for k in 1..=6u128 {
+        steps.push(st(t0 + (k as u64) * DAY_NS, "creator", upd_roy(2 * k * PCT)));
+    }
+    steps.push(st(t0 + 7 * DAY_NS, "creator", upd_roy(10 * PCT + 1)));
+    steps.push(st(t0 + 8 * DAY_NS, "creator", upd_roy(9 * PCT)));
+    steps.push(st(t0 + 9 * DAY_NS, "creator", upd_roy(10 * PCT)));
+    out.push(Hist { setup: setup_with(v, Some(0)), steps });
+    // creeping by one atomic above the cap after reaching it from below
+    out.push(Hist {
+        setup: setup_with(v, Some(8 * PCT + 1)),
+        steps: vec![
+            st(t0 + DAY_NS, "creator", upd_roy(10 * PCT + 1)),
+            st(t0 + DAY_NS, "creator", upd_roy(10 * PCT)),
+            st(t0 + 2 * DAY_NS, "creator", upd_roy(10 * PCT + 1)),
+        ],
+    });
+    // senders: only the creator; a new creator takes over; frozen collection
+    for who in ["alice", "royalty", PUPPET, "creator2"] {
+        out.push(Hist {
+            setup: setup_with(v, Some(5 * PCT)),
+            steps: vec![st(t0 + DAY_NS, who, upd_roy(4 * PCT)), st(t0 + DAY_NS, "creator", upd_roy(4 * PCT))],
+        });
+    }
+    out.push(Hist {
+        setup: setup_with(v, Some(5 * PCT)),
+        steps: vec![
+            st(t0 + 5, "creator", Op::UpdateInfo(UpdSpec { creator: Some("creator2".into()), explicit_content: Some(true), ..Default::default() })),
+            st(t0 + DAY_NS, "creator", upd_roy(4 * PCT)),
+            st(t0 + DAY_NS, "creator2", upd_roy(7 * PCT)),
+            st(t0 + 2 * DAY_NS, "creator2", Op::FreezeInfo),
+            st(t0 + 3 * DAY_NS, "creator2", upd_roy(1 * PCT)),
+        ],
+    });
+    // a royalty update riding on an otherwise invalid message must not move the anchor
+    out.push(Hist {
+        setup: setup_with(v, Some(5 * PCT)),
+        steps: vec![
+            st(
+                t0 + DAY_NS,
+                "creator",
+                Op::UpdateInfo(UpdSpec {
+                    image: Some(INVALID_URLS[0].into()),
+                    royalty: Some(Roy { addr: "royalty".into(), share: 6 * PCT }),
+                    ..Default::default()
+                }),
+            ),
+            st(t0 + DAY_NS + 1, "creator", upd_roy(7 * PCT)),
+            st(t0 + DAY_NS + 2, "creator", upd_roy(7 * PCT)),
+        ],
+    });
+    // u64 clock overflow of anchor + 24 h
+    out.push(Hist {
+        setup: Setup { time0: u64::MAX - DAY_NS + 1, ..setup_with(v, Some(5 * PCT)) },
+        steps: vec![st(u64::MAX, "creator", upd_roy(4 * PCT))],
+    });
+    out.push(Hist {
+        setup: Setup { time0: u64::MAX - DAY_NS, ..setup_with(v, Some(5 * PCT)) },
+        steps: vec![st(u64::MAX - 1, "creator", upd_roy(4 * PCT)), st(u64::MAX, "creator", upd_roy(4 * PCT))],
+    });
+    out
+}
+
+fn random_hist(v: Variant, rng: &mut Rng, len: usize) -> Runner {
+    let bases = [None, Some(0u128), Some(1), Some(3 * PCT), Some(5 * PCT), Some(8 * PCT), Some(10 * PCT), Some(30 * PCT), Some(ONE)];
+    let mut setup = setup_with(v, *rng.pick(&bases));
+    if rng.chance(1, 4) {
+        setup.minter = "minter2".into();
+    }
+    let mut r = Runner::new(&setup);
+    if !r.alive() {
+        return r;
+    }
+    let mut t = setup.time0;
+    let mut last_change = setup.time0;
+    for _ in 0..len {
+        // clock: mostly land on / around the next allowed instant
+        let target = last_change + DAY_NS;
+        t = match rng.below(10) {
+            0 => t + 1,
+            1 => t + DAY_NS / 2,
+            2 | 3 => target.max(t + 1) - 1,
+            4 | 5 | 6 => target.max(t),
+            7 => target.max(t) + 1,
+            _ => t + DAY_NS + rng.below(DAY_NS),
+        };
+        let o = r.obs().clone();
+        let cur = o.info.royalty.as_ref().map(|x| x.share);
+        let creator = o.info.creator.clone();
+        let sender = if rng.chance(9, 10) { creator.clone() } else { rng.pick(&USERS).to_string() };
+        let op = match rng.below(20) {
+            0 => Op::FreezeInfo,
+            1 => Op::UpdateInfo(UpdSpec {
+                creator: Some(if creator == "creator" { "creator2".into() } else { "creator".into() }),
+                explicit_content: o.info.explicit_content,
+                ..Default::default()
+            }),
+            2 => Op::UpdateInfo(UpdSpec { description: Some("other".into()), ..Default::default() }),
+            3 => Op::Mint { id: rng.below(3), owner: "alice".into(), uri: None },
+            _ => {
+                let c = cur.unwrap_or(0);
+                let share = match rng.below(14) {
+                    0 => c,
+                    1 => c.saturating_sub(1),
+                    2 => c / 2,
+                    3 => 0,
+                    4 => c + 1,
+                    5 => c + 2 * PCT - 1,
+                    6 | 7 => c + 2 * PCT,
+                    8 => c + 2 * PCT + 1,
+                    9 => 10 * PCT,
+                    10 => 10 * PCT + 1,
+                    11 => ONE + rng.below(2) as u128,
+                    12 => c + rng.below(2 * PCT as u64) as u128,
+                    _ => rng.next_u128() % (12 * PCT),
+                };
+                let mut u = UpdSpec { royalty: Some(Roy { addr: rng.pick(&["royalty", "carol"]).to_string(), share }), ..Default::default() };
+                u.explicit_content = o.info.explicit_content;
+                if rng.chance(1, 12) {
+                    u.image = Some(rng.pick(&INVALID_URLS).to_string());
+                }
+                Op::UpdateInfo(u)
+            }
+        };
+        let is_roy = matches!(&op, Op::UpdateInfo(u) if u.royalty.is_some());
+        let rec = r.step(&Step { at: t, sender, op, funds: vec![] });
+        if rec.ok && is_roy {
+            last_change = t;
+        }
+    }
+    r
+}
+
+/// The property text evaluated on one recorded history.  Returns (key suffix, description).
+pub fn history_monitor(r: &Runner) -> Option<(String, String)> {
+    let init = r.init_obs.as_ref()?;
+    if let Some(x) = &init.info.royalty {
+        if x.share > ONE {
+            return Some(("share-above-100".into(), format!("instantiated with share {}", share_str(x.share))));
+        }
+    }
+    let mut last_accept: Option<u64> = None;
+    let mut anchor = r.setup.time0; // last accepted change, or creation
+    let mut frozen = false;
+    for (i, rec) in r.recs.iter().enumerate() {
+        let since = anchor; // last accepted change before this step (or creation)
+        let old = rec.before.info.royalty.as_ref().map(|x| x.share);
+        let new = rec.after.info.royalty.as_ref().map(|x| x.share);
+        if let Some(n) = new {
+            if n > ONE {
+                return Some(("share-above-100".into(), format!("step {}: share {} after {:?}", i, share_str(n), rec.step.op)));
+            }
+        }
+        if let (Some(o), Some(n)) = (old, new) {
+            if n > o && n - o > 2 * PCT {
+                return Some(("raise-above-2pp".into(), format!("step {}: share raised {} -> {}", i, share_str(o), share_str(n))));
+            }
+            if n > o && n > 10 * PCT {
+                return Some(("raise-above-10pct".into(), format!("step {}: share raised {} -> {}", i, share_str(o), share_str(n))));
+            }
+        }
+        let roy_msg = match &rec.step.op {
+            Op::UpdateInfo(u) => u.royalty.clone(),
+            _ => None,
+        };
+        let changed = rec.before.info.royalty != rec.after.info.royalty;
+        if changed && !(rec.ok && roy_msg.is_some()) {
+            return Some(("royalty-changed-without-update".into(), format!("step {}: {:?} changed royalties to {:?}", i, rec.step.op, rec.after.info.royalty)));
+        }
+        if rec.ok && roy_msg.is_some() {
+            if let Some(prev) = last_accept {
+                if rec.step.at < prev || rec.step.at - prev < DAY_NS {
+                    return Some(("cadence".into(), format!("step {}: royalty change accepted {} ns after the previous accepted one", i, rec.step.at.wrapping_sub(prev))));
+                }
+            }
+            last_accept = Some(rec.step.at);
+            anchor = rec.step.at;
+        }
+        // lowering is always allowed within the cadence: creator, not frozen, a message
+        // that changes nothing else, share not above the current one, >= 24 h since the
+        // last accepted change (or creation)
+        if let (Some(m), Some(o)) = (&roy_msg, old) {
+            let plain = matches!(&rec.step.op, Op::UpdateInfo(u) if u.description.is_none() && u.image.is_none() && u.external_link.is_none() && u.creator.is_none());
+            let waited = rec.step.at >= since && rec.step.at - since >= DAY_NS;
+            if plain && !frozen && rec.step.sender == rec.before.info.creator && m.share <= o && waited && since.checked_add(DAY_NS).is_some() && !rec.ok {
+                return Some(("lowering-rejected".into(), format!("step {}: lowering {} -> {} by the creator {} ns after the last change was rejected: {}", i, share_str(o), share_str(m.share), rec.step.at - since, rec.err)));
+            }
+        }
+        if rec.ok && matches!(rec.step.op, Op::FreezeInfo) {
+            frozen = true;
+        }
+    }
+    None
+}
+
+#[derive(Deserialize)]
+struct ReplayFile {
+    history: Option<Hist>,
+    payout: Option<Payout>,
+}
+
+fn fingerprint(v: Variant, rec: &StepRec) -> u64 {
+    let mut h = std::collections::hash_map::DefaultHasher::new();
+    v.hash(&mut h);
+    rec.step.op.hash(&mut h);
+    rec.step.sender.hash(&mut h);
+    rec.ok.hash(&mut h);
+    rec.before.hash(&mut h);
+    h.finish()
+}
+pub fn trivial_rejection(rec: &StepRec) -> bool {
+    !rec.ok && (rec.err.contains("unknown variant") || rec.err.contains("Error parsing") || rec.err.contains("missing field"))
+}
+
+pub fn run(a: &Args) {
+    let out = OutDir::new(&a.out);
+    let mut rep = Report { property: "C10".into(), tier: a.tier.clone(), seed: a.seed, ..Default::default() };
+    let mut rng = Rng::new(a.seed);
+    let mut coq_cases: Vec<String> = vec![];
+    let mut distinct = BTreeSet::new();
+    let mut nviol = 0usize;
+
+    let (payouts, hists): (Vec<Payout>, Vec<Hist>) = if let Some(p) = &a.replay {
+        let txt = std::fs::read_to_string(p).expect("replay file");
+        let rf: ReplayFile = serde_json::from_str(&txt).expect("replay json");
+        (rf.payout.into_iter().collect(), rf.history.into_iter().collect())
+    } else {
+        let mut hs = vec![];
+        for v in Variant::ALL {
+            hs.extend(scripted(v));
+        }
+        (payout_cases(a, &mut rng), hs)
+    };
+
+    // (a) payout helper
+    for (i, c) in payouts.iter().enumerate() {
+        let o = run_payout(c);
+        rep.evaluations += 1;
+        rep.bump(&format!("royalty_payout:{}", if o.out.is_ok() { "ok" } else { "err" }));
+        if matches!(&o.out, Ok((x, _)) if *x > 0) || o.out.is_err() {
+            distinct.insert(format!("{:?}", c));
+        }
+        if let Some((k, what)) = payout_monitor(c, &o.out) {
+            nviol += 1;
+            if nviol <= 20 {
+                let body = format!(
+                    "{{\n \"property\": \"C10\",\n \"payout\": {},\n \"observed\": {},\n \"violation\": {}\n}}\n",
+                    serde_json::to_string(c).unwrap(),
+                    serde_json::to_string(&format!("{:?}", o.out)).unwrap(),
+                    serde_json::to_string(&what).unwrap()
+                );
+                let path = out.write_replay(&format!("C10-{}.json", nviol), &body);
+                rep.violations.push(Violation { key: format!("C10:{}", k), what: format!("royalty_payout on {:?}: {}", c, what), replay: path });
+            }
+        }
+        if rep.samples.len() < 1 && (i == 3 || a.replay.is_some()) {
+            rep.samples.push(serde_json::json!({"case": format!("{:?}", c), "impl_output": format!("{:?}", o.out)}));
+        }
+        coq_cases.push(o.coq);
+    }
+
+    // (b) histories
+    let mut handle = |r: Runner, rep: &mut Report, coq_cases: &mut Vec<String>, nviol: &mut usize, distinct: &mut BTreeSet<String>| {
+        let v = r.setup.variant;
+        rep.evaluations += 1 + r.recs.len() as u64;
+        rep.bump(&format!("{}:instantiate:{}", v.name(), if r.alive() { "ok" } else { "err" }));
+        for rec in &r.recs {
+            rep.bump(&format!("{}:{}:{}", v.name(), rec.step.op.kind(), if rec.ok { "ok" } else { "err" }));
+            if !trivial_rejection(rec) {
+                distinct.insert(format!("{:x}", fingerprint(v, rec)));
+            }
+        }
+        if let Some((k, what)) = history_monitor(&r) {
+            *nviol += 1;
+            if *nviol <= 20 {
+                let key = format!("C10:{}:{}", v.name(), k);
+                let kk = k.clone();
+                let small = shrink(&r.hist(), &|x: &Runner| matches!(history_monitor(x), Some((k2, _)) if k2 == kk));
+                let path = out.write_replay(&format!("C10-{}.json", *nviol), &replay_body("C10", &small, &what, &key));
+                rep.violations.push(Violation { key, what: format!("{} ({} steps after shrinking): {}", v.name(), small.steps.len(), what), replay: path });
+            }
+        }
+        if rep.samples.len() < 3 && !r.recs.is_empty() {
+            let rec = &r.recs[0];
+            rep.samples.push(serde_json::json!({"variant": v.name(), "step": format!("{:?}", rec.step), "ok": rec.ok, "royalty_after": format!("{:?}", rec.after.info.royalty)}));
+        }
+        coq_cases.push(format!("RHist {}", r.coq_history()));
+    };
+    for h in &hists {
+        let r = run_hist(h);
+        handle(r, &mut rep, &mut coq_cases, &mut nviol, &mut distinct);
+    }
+    if a.replay.is_none() {
+        let per = if a.thorough() { 150 } else { 10 };
+        for v in Variant::ALL {
+            for _ in 0..per {
+                let len = rng.range(8, 22) as usize;
+                let r = random_hist(v, &mut rng, len);
+                handle(r, &mut rep, &mut coq_cases, &mut nviol, &mut distinct);
+            }
+        }
+    }
+    rep.distinct_nontrivial = distinct.len() as u64;
+    rep.rule = "evaluations = royalty_payout calls + instantiations + executed history steps. Payout: shares {none, 0, 1, 1%, 2%, 5%, 10%, 50%, 99%, 100%, 200%, u128::MAX} +-1 atomic x payments (small, 10^k, 10^18, u128::MAX, +-1) x fees on the `fees + royalty = payment` boundary +-1, with/without finder's fee, plus random u128. Histories: per variant (base, updatable, updatable-migrated, metadata-onchain, nt) instantiate shares around 100%, clocks at 24h-1ns/24h/24h+1ns from creation and from the previous accepted change, raises of 2% +-1 atomic from 12 bases, cap 10% +-1 atomic, first royalty on a royalty-less collection, climbs, non-creator senders, frozen collection, u64 clock overflow, then random royalty histories. Non-trivial = payout that pays or refuses; history step (distinct by variant, call, sender, outcome and prior observation) that is not a message-does-not-exist rejection.".into();
+    out.write_cases("C10", "From LP Require Import Collection C10Corr.", "c10_case", "c10_check", &coq_cases, 6, &mut rep);
+    out.finish(&rep);
+    println!("C10 harness: {} evaluations in {} cases, {} monitor violations", rep.evaluations, coq_cases.len(), nviol);
 }
